@@ -25,7 +25,7 @@ type lockHold struct {
 	m     *Monitor
 	owner Term
 	snap  *State
-	site  int // ordinal (source order, from 1) of the Lock call in the function that acquired it
+	site  string // ordinal (source order, from 1) of the Lock call in the function that acquired it; c<k>_<n> for a site in the inlined function literal $k
 }
 
 // lockSite numbers the Lock calls of a monitor inside one function by source position.
@@ -153,12 +153,16 @@ func (fr *Frame) lockCall(cc *ssa.CallCommon, pos token.Pos) *Val {
 			r.Trusted["monitor assumption: "+as.Src] = true
 		}
 		fr.st.held[m.Name] = true
-		site := r.Eng.lockSite(fr.Fn, m, pos)
+		site := fmt.Sprint(r.Eng.lockSite(fr.Fn, m, pos))
+		if fr.Fn != r.Fn && fr.Fn.Parent() != nil && strings.HasPrefix(fr.Fn.Name(), r.Fn.Name()+"$") {
+			// a Lock inside a function literal of the unit that is run in line (deferred or called): its own numbering
+			site = "c" + strings.ReplaceAll(strings.TrimPrefix(fr.Fn.Name(), r.Fn.Name()+"$"), "$", "c") + "_" + site
+		}
 		fr.st.locks[m.Name] = &lockHold{m: m, owner: owner, snap: fr.st.Clone(), site: site}
 		r.recordLockSnap("locked", fr)
 		r.recordLockSnap("locked_"+m.Name, fr)
-		r.recordLockSnap(fmt.Sprintf("locked_%s_%d", m.Name, site), fr)
-		cname := fmt.Sprintf("lock:%s@%d-reachable-with-invariant", m.Name, site)
+		r.recordLockSnap(fmt.Sprintf("locked_%s_%s", m.Name, site), fr)
+		cname := fmt.Sprintf("lock:%s@%s-reachable-with-invariant", m.Name, site)
 		if r.lockCovers == nil {
 			r.lockCovers = map[string]Term{}
 		}
@@ -188,7 +192,7 @@ func (fr *Frame) lockCall(cc *ssa.CallCommon, pos token.Pos) *Val {
 		}
 		r.recordLockSnap("unlocked", fr)
 		r.recordLockSnap("unlocked_"+m.Name, fr)
-		r.recordLockSnap(fmt.Sprintf("unlocked_%s_%d", m.Name, h.site), fr)
+		r.recordLockSnap(fmt.Sprintf("unlocked_%s_%s", m.Name, h.site), fr)
 		delete(fr.st.held, m.Name)
 		delete(fr.st.locks, m.Name)
 		fr.bumpTop()
@@ -204,6 +208,11 @@ func (fr *Frame) lockCall(cc *ssa.CallCommon, pos token.Pos) *Val {
 // different paths are merged under their path conditions.
 func (r *FnRun) recordLockSnap(name string, fr *Frame) {
 	cur := fr.st.Clone()
+	if pr, ok := r.snapReached[name]; ok {
+		r.snapReached[name] = Or(fr.cur, pr)
+	} else {
+		r.snapReached[name] = fr.cur
+	}
 	if prev, ok := r.snaps[name]; ok && fr.cur.S != "true" {
 		r.snaps[name] = r.Heap.Merge(r.Sc, []Term{fr.cur, Not(fr.cur)}, []*State{cur, prev})
 		return
